@@ -1,0 +1,87 @@
+//go:build verif
+
+package command
+
+import (
+	"context"
+	"io"
+	"net"
+	"time"
+
+	"github.com/v-byte-cpu/sx/pkg/scan"
+	"github.com/v-byte-cpu/sx/pkg/scan/arp"
+	"github.com/v-byte-cpu/sx/pkg/scan/tcp"
+)
+
+// Wrappers for the verification harness of the target generators (built only with -tags verif):
+// they fill the real option structs the way the flag parsers do and return what the commands build.
+
+// VerifTargetOpts are the option fields that decide which generator chain a command builds.
+type VerifTargetOpts struct {
+	IPFile      string
+	PortRanges  []*scan.PortRange
+	ExcludeIPs  scan.IPContainer
+	Cache       *arp.Cache
+	GatewayMAC  net.HardwareAddr
+	VPNMode     bool
+	LiveTimeout time.Duration
+}
+
+func VerifParseExcludeFile(open func() (io.ReadCloser, error)) (scan.IPContainer, error) {
+	return parseExcludeFile(open)
+}
+
+func (v *VerifTargetOpts) packetOpts() packetScanCmdOpts {
+	return packetScanCmdOpts{excludeIPs: v.ExcludeIPs}
+}
+
+func (v *VerifTargetOpts) ipOpts() ipScanCmdOpts {
+	return ipScanCmdOpts{packetScanCmdOpts: v.packetOpts(), ipFile: v.IPFile,
+		cache: v.Cache, gatewayMAC: v.GatewayMAC, vpnMode: v.VPNMode}
+}
+
+func (v *VerifTargetOpts) ipPortOpts() ipPortScanCmdOpts {
+	return ipPortScanCmdOpts{ipScanCmdOpts: v.ipOpts(), portRanges: v.PortRanges}
+}
+
+// VerifPacketIPPortGenerator is ipPortScanCmdOpts.newIPPortGenerator (tcp, udp).
+func VerifPacketIPPortGenerator(v *VerifTargetOpts) scan.RequestGenerator {
+	o := v.ipPortOpts()
+	return o.newIPPortGenerator()
+}
+
+// VerifGenericIPPortGenerator is genericScanCmdOpts.newIPPortGenerator (socks, docker, elastic).
+func VerifGenericIPPortGenerator(v *VerifTargetOpts) scan.RequestGenerator {
+	o := genericScanCmdOpts{ipFile: v.IPFile, portRanges: v.PortRanges, excludeIPs: v.ExcludeIPs}
+	return o.newIPPortGenerator()
+}
+
+// VerifGenericScanEngine is genericScanCmdOpts.newScanEngine with the given scanner.
+func VerifGenericScanEngine(ctx context.Context, v *VerifTargetOpts, workers int, scanner scan.Scanner) *scan.GenericEngine {
+	o := genericScanCmdOpts{ipFile: v.IPFile, portRanges: v.PortRanges, excludeIPs: v.ExcludeIPs, workers: workers}
+	return o.newScanEngine(ctx, scanner)
+}
+
+// VerifScanMethod builds the packet method of a command ("arp", "icmp", "udp", "tcp") exactly as its
+// RunE does and returns its packet source (request generator + packet generator with the real filler).
+func VerifScanMethod(ctx context.Context, cmd string, v *VerifTargetOpts) scan.PacketSource {
+	switch cmd {
+	case "arp":
+		o := arpCmdOpts{packetScanCmdOpts: v.packetOpts(), liveTimeout: v.LiveTimeout}
+		return o.newARPScanMethod(ctx).PacketSource
+	case "icmp":
+		o := icmpCmdOpts{ipScanCmdOpts: v.ipOpts(), ipTTL: 64, ipProtocol: 1, icmpType: 8}
+		return o.newICMPScanMethod(ctx).PacketSource
+	case "udp":
+		o := udpCmdOpts{ipPortScanCmdOpts: v.ipPortOpts(), ipTTL: 64, ipProtocol: 17}
+		return o.newUDPScanMethod(ctx).PacketSource
+	case "tcp":
+		o := tcpCmdOpts{ipPortScanCmdOpts: v.ipPortOpts()}
+		return o.newTCPScanMethod(ctx,
+			withTCPScanName(tcp.SYNScanType),
+			withTCPPacketFillerOptions(tcp.WithSYN()),
+			withTCPPacketFilterFunc(tcp.TrueFilter),
+			withTCPPacketFlags(tcp.EmptyFlags)).PacketSource
+	}
+	return nil
+}
